@@ -28,12 +28,13 @@ PROPS = {
     ),
     "C08": dict(
         level="exploration",
-        modules=["specs.rbcommon", "specs.ordercfg"],
+        modules=["specs.rbcommon", "specs.ordercfg", "specs.getorder"],
         bounded=[("bounded.c08", "run")],
         assumes=["A3", "A6", "A9"],
-        trusted=["Orderer.get_order (assumed contract: a function of rules, vendor, row and direction), make_patch's sort_key and "
-                 "PatchTree.sort are not under a discharged contract (bounded only); Orderer.order_config is proved relative to "
-                 "get_order, the stable-sort model of sorted() and left-to-right odict(pairs)"],
+        trusted=["Orderer.get_order is proved equal to a fold over the ordering rules (relative to re.match and rule_weight; float('inf') "
+                 "modelled as an integer constant above every rule index); Orderer.order_config is proved relative to get_order being a function of "
+                 "(rules, vendor, row, direction) - which the get_order contract establishes -, the stable-sort model of sorted() and "
+                 "left-to-right odict(pairs); make_patch's sort_key and PatchTree.sort are not under a discharged contract (bounded only)"],
     ),
     "C09": dict(
         level="exploration",
